@@ -114,6 +114,15 @@ def run(ctx) -> None:
             ctx.count("location.fail_over_suspect_cases")
         loc_case(ctx, lon, lat, box, rmax, tag, boxkind)
 
+    if ctx.shard == 0:
+        n = ctx.pick(17001, 40001)
+        lon = [20.0 + 0.0001 * (k % 11) for k in range(n)]
+        lat = [30.0 + 0.0001 * (k % 7) for k in range(n)]
+        for b in (4096, 8192, 16384, 32768):
+            if b + 2 < n:
+                lon[b] = 45.0  # outside the box after an over-long hop
+                lat[b + 2] = None
+        loc_case(ctx, lon, lat, list(BOX), 5000.0, "huge", "regular")
     # history: the same coordinate values with and without some fixes masked, one call right after the other
     for _ in range(ctx.pick(150, 1000)):
         n = rng.choice([3, 4, 5, 8])
